@@ -44,7 +44,7 @@ REQUIRED = ["branches_checked", "paths_checked", "tips_checked", "furcations_che
             "branch_tree_memory_probed", "longest_path_checked", "root_one_child_trees",
             "derived_trees_checked", "negative_position_handles",
             "tap_get_branches", "tap_from_tree"]
-FLOOR = {"quick": 800, "thorough": 15000}
+FLOOR = {"quick": 550, "thorough": 10000}
 SHARDS = {"quick": 8, "thorough": 16}
 
 
